@@ -456,6 +456,10 @@ func (s *sealer) extBody(h *aHello, x aExt, o encOpts, op string, zeroPayloadLen
 		odd := false
 		for _, t := range h.Eoe {
 			switch t {
+			case "NODATA":
+				return nil
+			case "EMPTYLIST":
+				return []byte{0}
 			case "BADLEN":
 				bad = true
 			case "ODD":
